@@ -5,7 +5,7 @@ from props import util
 
 THEOREMS = ['C07_assembled_wf', 'C07_vectors_are_the_assets', 'C07_row_points_to_own_variable', 'C07_row_points_shifted',
             'C07_assembled_mapping_wf', 'C07_nodal_rows_exact', 'C07_nodal_rows_unique']
-CFG = {'p_coarse': 0.2, 'p_periodic': 0.2, 'T': (3, 8), 'n_assets': (1, 5), 'nodes': (1, 3), 'p_window': 0.5,
+CFG = {'p_gap': 0.2, 'p_cap_dict': 0.35, 'p_coarse': 0.2, 'p_periodic': 0.2, 'T': (3, 8), 'n_assets': (1, 5), 'nodes': (1, 3), 'p_window': 0.5,
        'p_no_simult': 0.2, 'p_max_store': 0.15, 'p_full_exec': 0.2,
        'window_kinds': ['inside', 'left', 'right', 'straddle_l', 'straddle_r', 'before', 'after', 'offgrid'],
        'kinds': {'SimpleContract': 2, 'Contract': 2, 'Transport': 2, 'Storage': 3, 'MultiCommodityContract': 2, 'OrderBook': 3, 'ExtendedTransport': 1, 'ScaledAsset': 3, 'StructuredAsset': 2}}
@@ -77,6 +77,8 @@ def run(ctx):
         if bad:
             ctx.violation('impl-violation', {'spec': sp, 'observed': bad, 'expected': 'well-formed problem and mapping'},
                           trigger={'what': sorted(bad)[0]})
+            if 'nan' in bad or 'lengths' in bad:
+                continue        # not expressible as a rational problem; already reported
         if any(r['status'] != 'ok' for r in pa['assets']):
             ctx.count('asset alone fails but portfolio works')
             continue
